@@ -249,6 +249,7 @@ func crossCheckRename(c *core.Ctx, t *gen.Node, enc0 []byte, sub []string, hookS
 		sim.RenameRestore(&encR)
 		br := sim.Marshal(encR)
 		c.Count("sim-crosschecks", 1)
+		c.Count("sim_disagreements", 0)
 		if d, _ := obs.Diff(hookShape, rs); d != "" || !bytes.Equal(br, hookOut) {
 			c.Count("sim_disagreements", 1)
 			if c.Verbose {
